@@ -152,6 +152,9 @@ class AppSim:
                 return verdict
         if validator == 'none':
             _validator = None
+        elif validator == 'stock':
+            # the validator objects the library ships: appv2.pass_all / the legacy application-wide default
+            _validator = v2_mod.pass_all if self.frontend == 'v2' else None
 
         async def _await(coro):
             h.awaiting = True
